@@ -128,11 +128,15 @@ def recv_accumulation(g, rd, fn, loop_node, cnt, part):
     return good, msg, joined, inc_cnt, msgv
 
 
-def returns_message(s, msg, joined):
-    """the return statement hands back the accumulated message (the buffer itself, bytes(buffer), or b''.join(chunks))"""
+def returns_message(s, msg, joined, rd=None, node=None):
+    """the return statement hands back the accumulated message (the buffer itself, bytes(buffer), or b''.join(chunks)); the value may be bound to a
+    local first (message = b''.join(chunks); ...; return message) when rd / node are given"""
     if not isinstance(s, ast.Return):
         return False
     v = s.value
+    if rd is not None and node is not None and isinstance(v, ast.Name) and v.id != msg:
+        from ..dataflow import resolve as _resolve
+        v, _n = _resolve(rd, node, v)
     if joined is not None:
         return isinstance(v, ast.Call) and isinstance(v.func, ast.Attribute) and v.func.attr == 'join' and isinstance(v.func.value, ast.Constant) \
             and v.func.value.value == b'' and len(v.args) == 1 and isinstance(v.args[0], ast.Name) and v.args[0].id == joined
@@ -229,7 +233,7 @@ def check_recv_loop(ctx, rule, rel, qual, fn, exc_ok):
     ctx.check(empty_ok, rule, qual + '|empty-read-ends-loop', site, 'an empty chunk ends the loop', 'an empty recv() result neither ends the loop nor raises (busy loop at end of stream)')
     for pn, lab in g.exit.pred:
         s = pn.stmt
-        okret = returns_message(s, msg, joined)
+        okret = returns_message(s, msg, joined, rd, pn)
         eq = False
         for t, l2 in dominating_edges(g, pn):
             q = cmp_parts(t.stmt)
